@@ -118,7 +118,7 @@ def cases():
 
 
 def run(ctx):
-    n = ctx.share(1300 if ctx.quick else 40000)
+    n = ctx.share(6400 if ctx.quick else 64000)
     explore(ctx, cases(), body, n)
 
 
